@@ -24,7 +24,13 @@ func init() {
 				clTerminatorAlways(c)
 				clStreamPrivateState(c)
 			})
-			c.Do("C05.e", "L2 restored count source and verification", 8, func() { clRestoredCount(c); clVerificationPrecedesAcceptance(c); clRestoreItemSize(c) })
+			c.Do("C05.e", "L2 restored count source and verification", 8, func() {
+				clRestoredCount(c)
+				clVerificationPrecedesAcceptance(c)
+				clRestoreItemSize(c)
+				clAllocItemInitialises(c)
+				clVisitorPivotCopies(c)
+			})
 		},
 	})
 }
